@@ -149,10 +149,11 @@ struct Slot {
     point: &'static str,
     reached: bool,
     open: bool,
+    skip: usize,
 }
 
 pub struct Gates {
-    st: Mutex<HashMap<String, Slot>>,
+    st: Mutex<HashMap<(String, &'static str), Slot>>,
     cv: Condvar,
 }
 
@@ -166,14 +167,31 @@ impl Gates {
 
     /// The thread called `thread` will stop the first time it passes `point`.
     fn arm(&self, thread: &str, point: &'static str) {
+        self.arm_nth(thread, point, 0);
+    }
+
+    /// The thread called `thread` will stop at `point` after passing it `skip` times.
+    fn arm_nth(&self, thread: &str, point: &'static str, skip: usize) {
         self.st.lock().insert(
-            thread.to_string(),
+            (thread.to_string(), point),
             Slot {
                 point,
                 reached: false,
                 open: false,
+                skip,
             },
         );
+    }
+
+    fn disarm(&self, thread: &str, point: &'static str) {
+        let mut st = self.st.lock();
+        if let Some(s) = st.get_mut(&(thread.to_string(), point)) {
+            s.open = true;
+            if !s.reached {
+                st.remove(&(thread.to_string(), point));
+            }
+        }
+        self.cv.notify_all();
     }
 
     /// Called at an instrumented point by whatever thread gets there.
@@ -183,18 +201,31 @@ impl Gates {
             Some(n) => n.to_string(),
             None => return,
         };
+        let key = (me, point);
         let mut st = self.st.lock();
-        match st.get_mut(&me) {
+        match st.get_mut(&key) {
             Some(s) if s.point == point && !s.reached => {
+                if s.skip > 0 {
+                    s.skip -= 1;
+                    return;
+                }
                 s.reached = true;
             }
             _ => return,
         }
         self.cv.notify_all();
-        while !st.get(&me).map(|s| s.open).unwrap_or(true) {
+        while !st.get(&key).map(|s| s.open).unwrap_or(true) {
             self.cv.wait(&mut st);
         }
-        st.remove(&me);
+        st.remove(&key);
+    }
+
+    fn is_parked(&self, thread: &str, point: &'static str) -> bool {
+        self.st
+            .lock()
+            .get(&(thread.to_string(), point))
+            .map(|s| s.reached)
+            .unwrap_or(false)
     }
 
     /// Wait until the thread is parked; false if it finished (or timed out) without parking.
@@ -202,11 +233,11 @@ impl Gates {
         let t0 = Instant::now();
         let mut st = self.st.lock();
         loop {
-            if st.get(thread).map(|s| s.reached).unwrap_or(false) {
+            if st.iter().any(|(k, s)| k.0 == thread && s.reached) {
                 return true;
             }
             if done.load(Ordering::SeqCst) || t0.elapsed() > timeout {
-                st.remove(thread);
+                st.retain(|k, _| k.0 != thread);
                 return false;
             }
             self.cv.wait_for(&mut st, Duration::from_millis(2));
@@ -215,8 +246,10 @@ impl Gates {
 
     fn release(&self, thread: &str) {
         let mut st = self.st.lock();
-        if let Some(s) = st.get_mut(thread) {
-            s.open = true;
+        for (k, s) in st.iter_mut() {
+            if k.0 == thread && s.reached {
+                s.open = true;
+            }
         }
         self.cv.notify_all();
     }
@@ -249,6 +282,12 @@ impl FileSystem for GateFs {
         self.inner.rename(from, to)
     }
     fn create_file(&self, path: &Path, append: bool) -> std::io::Result<Box<dyn RandomAccessFile>> {
+        if path.extension().map(|e| e == "rdb").unwrap_or(false) {
+            if std::env::var("LOCKFMT_DEBUG").is_ok() {
+                eprintln!("create_table {:?} by {:?}", path, std::thread::current().name());
+            }
+            self.gates.pass("create_table");
+        }
         self.inner.create_file(path, append)
     }
     fn remove_file(&self, path: &Path) -> std::io::Result<()> {
@@ -279,12 +318,31 @@ impl FileSystem for GateFs {
 /// (start of `Drop for DB`, before the wait for background work and before the lock release).
 struct GateObserver {
     gates: Arc<Gates>,
+    log: Arc<Log>,
+    tids: Mutex<HashMap<std::thread::ThreadId, i64>>,
 }
 
 impl Observer for GateObserver {
     fn event(&self, name: &'static str, _fields: Vec<(&'static str, Val)>) {
         if name == "Closing" {
             self.gates.pass("closing");
+        }
+        if name == "BgBegin" || name == "BgEnd" {
+            // which background thread is working: a thread that still works after another
+            // handle was opened belongs to an owner that released the lock too early
+            let id = std::thread::current().id();
+            let n = {
+                let mut t = self.tids.lock();
+                let next = t.len() as i64 + 1;
+                *t.entry(id).or_insert(next)
+            };
+            self.log.emit("BgWork", json!({"tid": n, "phase": name}));
+        }
+    }
+
+    fn sched_point(&self, name: &'static str) {
+        if name == "compact_loop" {
+            self.gates.pass("compact_loop");
         }
     }
 }
@@ -971,6 +1029,95 @@ impl Run {
                 self.cleanup();
                 return;
             }
+            5 => {
+                // close while a table compaction with a memtable flush inside its loop is running:
+                // the lock must stay held until that background work has stopped
+                self.round("gate-close-during-compaction");
+                if !self.ctx.small_mem {
+                    return;
+                }
+                self.seq_close_all_but_one();
+                self.ensure_owner();
+                if self.held.is_empty() {
+                    return;
+                }
+                const BG: &str = "raindb-tumtum";
+                self.ctx.gates.arm(BG, "compact_loop");
+                let mut parked = false;
+                for _ in 0..80 {
+                    // a key below all probe keys in every memtable: the level-0 tables overlap,
+                    // so compacting them is a merge and not a trivial move
+                    let _ = self.held[0].1.put(
+                        WriteOptions::default(),
+                        b"pa".to_vec(),
+                        self.ctx.val(0),
+                    );
+                    self.probe_all();
+                    if self.ctx.gates.is_parked(BG, "compact_loop") {
+                        parked = true;
+                        break;
+                    }
+                }
+                if !parked {
+                    self.ctx.gates.disarm(BG, "compact_loop");
+                    self.intruders();
+                    return;
+                }
+                // rotate the memtable once more while the compaction is parked (no further writes
+                // after that: a second rotation would wait for the parked thread)
+                for _ in 0..12 {
+                    let has_imm = self.held[0]
+                        .1
+                        .verif_try_state(Duration::from_secs(5))
+                        .map(|d| d.has_imm)
+                        .unwrap_or(true);
+                    if std::env::var("LOCKFMT_DEBUG").is_ok() {
+                        eprintln!("parked at compact_loop, has_imm={}", has_imm);
+                    }
+                    if has_imm {
+                        break;
+                    }
+                    self.probe_all();
+                }
+                // the second table the background thread creates from now on is the compaction's
+                // output (the first one is the flush of the rotated memtable)
+                self.ctx.gates.arm_nth(BG, "create_table", 1);
+                let (h, db) = self.held.remove(0);
+                let ctx = Arc::clone(&self.ctx);
+                let c = ctx.new_call();
+                std::thread::scope(|s| {
+                    let ctx2 = &ctx;
+                    let th = std::thread::Builder::new()
+                        .name("g7".to_string())
+                        .spawn_scoped(s, move || ctx2.close(c, "g7", h, db))
+                        .unwrap();
+                    std::thread::sleep(Duration::from_millis(30));
+                    ctx.gates.release(BG);
+                    let t0 = Instant::now();
+                    while !ctx.gates.is_parked(BG, "create_table")
+                        && !th.is_finished()
+                        && t0.elapsed() < Duration::from_secs(3)
+                    {
+                        std::thread::sleep(Duration::from_millis(2));
+                    }
+                    if std::env::var("LOCKFMT_DEBUG").is_ok() {
+                        eprintln!(
+                            "close-during-compaction: parked2={} closed={} waited={:?}",
+                            ctx.gates.is_parked(BG, "create_table"),
+                            th.is_finished(),
+                            t0.elapsed()
+                        );
+                    }
+                    // the owner is still closing and its compaction is still running
+                    self.seq_open();
+                    self.probe_all();
+                    ctx.gates.disarm(BG, "create_table");
+                    ctx.gates.release(BG);
+                    let _ = th.join();
+                });
+                self.seq_open();
+                self.probe_all();
+            }
             _ => {
                 // an open that has finished its pre-lock work is parked; a destroy runs up to the
                 // unlink of LOCK; the open continues; the destroy continues
@@ -1141,6 +1288,8 @@ pub fn cmd(m: &HashMap<String, String>) -> i32 {
                 &db_path,
                 Arc::new(GateObserver {
                     gates: Arc::clone(&gatesv),
+                    log: Arc::clone(&log),
+                    tids: Mutex::new(HashMap::new()),
                 }),
             );
             let tag = format!(
@@ -1182,7 +1331,7 @@ pub fn cmd(m: &HashMap<String, String>) -> i32 {
             // (c) forced schedules, (b) races, interleaved
             let mut plan: Vec<usize> = vec![];
             for _ in 0..gates {
-                plan.extend(0..5usize);
+                plan.extend(0..7usize);
             }
             let mut kinds: Vec<Option<usize>> = plan.into_iter().map(Some).collect();
             kinds.extend((0..rounds).map(|_| None));
